@@ -99,6 +99,33 @@ func twoStoppers(dur time.Duration, mode int) Scenario {
 	}}
 }
 
+// stopThenStopAndWait: Stop (which does not wait) followed by StopAndWait, which still has to wait for
+// the function that is running.
+func stopThenStopAndWait(dur time.Duration) Scenario {
+	return Scenario{Name: fmt.Sprintf("stop/Stop-then-StopAndWait/dur=%v", dur), Body: func() {
+		g := xsync.NewGroup(context.Background())
+		seq := 0
+		stopped := false
+		l := &runLog{name: "Do#0", seq: &seq, stopped: &stopped, dur: dur}
+		started := make(chan struct{})
+		g.Do(func(ctx context.Context) {
+			close(started)
+			l.f(ctx)
+		})
+		<-started
+		g.Stop()
+		g.StopAndWait()
+		hx.Atomically(func() {
+			if l.active != 0 || len(l.ends) == 0 {
+				hx.Fail("running-after-StopAndWait", "StopAndWait (after an earlier Stop) returned while the function started through Do was still running")
+			}
+			stopped = true
+		})
+		hx.Quiesce()
+		hx.Outcome("ok")
+	}}
+}
+
 func stopRace(kinds []string, parentCancel bool, mode int) Scenario {
 	return stopRaceX(kinds, parentCancel, false, mode)
 }
@@ -331,7 +358,7 @@ func All() []Scenario {
 		stopRace([]string{"Do", "Trigger"}, true, 0),
 		stopRace([]string{"Periodic"}, true, 1),
 		stopRace([]string{"PeriodicOrTrigger"}, false, 1),
-		twoStoppers(0, 0), twoStoppers(2*ms, 1),
+		twoStoppers(0, 0), twoStoppers(2*ms, 1), stopThenStopAndWait(2*ms),
 		stopRace([]string{"DoNested"}, false, 0),
 		stopRace([]string{"TriggerSelf"}, false, 0),
 		stopRaceX([]string{"Do"}, false, true, 0),
